@@ -18,11 +18,11 @@ import (
 // C11 / C12: dissemination in a virtual network of real gossip services.
 
 type gossipItem struct {
-	hash    Hash
-	kind    string // vertex | trx
-	origin  int
-	at      int64
-	netFrom int // index into Net.Log where this item's traffic starts
+	hash      Hash
+	kind      string // vertex | trx
+	origin    int
+	at        int64
+	netFrom   int // index into Net.Log where this item's traffic starts
 	dependent bool
 }
 
